@@ -277,3 +277,110 @@ func init() {
 }
 
 func TestReplay(t *testing.T) { vh.RunReplay(t) }
+
+// ---- wide split commands under concurrency: the combined reply must not depend on how the nodes' answers interleave
+
+type wideCase struct {
+	Layout sim.Layout `json:"layout"`
+	Keys   int        `json:"keys"`
+	Conns  int        `json:"conns"`
+	Rounds int        `json:"rounds"`
+}
+
+func checkWide(c wideCase) *verdict {
+	w, err := sim.NewLayoutWorld(c.Layout)
+	if err != nil {
+		return nil
+	}
+	defer w.Close()
+	px, err := sim.StartProxy(sim.ProxyOpts{Seeds: w.Addrs(w.Masters())})
+	if err != nil {
+		return &verdict{"proxy-start", err.Error()}
+	}
+	defer px.Stop(20 * time.Second)
+	if !px.WaitTableLoaded(1, 10*time.Second) {
+		return &verdict{"table-not-loaded", "routing table not loaded"}
+	}
+	var wg sync.WaitGroup
+	res := make([]*verdict, c.Conns)
+	for ci := 0; ci < c.Conns; ci++ {
+		wg.Add(1)
+		go func(ci int) {
+			defer wg.Done()
+			cl, err := sim.Dial(px.Addr)
+			if err != nil {
+				return
+			}
+			defer cl.Close()
+			keys := make([]string, c.Keys)
+			mset := []string{"MSET"}
+			for i := range keys {
+				keys[i] = fmt.Sprintf("w%d:%d", ci, i)
+				mset = append(mset, keys[i], "v"+keys[i])
+			}
+			if r, err := cl.Do(replyTimeout, mset...); err != nil || !ref.Equal(r, ref.OKV()) {
+				res[ci] = &verdict{"reply-differs", fmt.Sprintf("MSET of %d keys answered %s (%v)", c.Keys, r, err)}
+				return
+			}
+			wantArr := make([]ref.Value, len(keys))
+			for i, k := range keys {
+				wantArr[i] = ref.BulkS("v" + k)
+			}
+			for r := 0; r < c.Rounds; r++ {
+				for _, cmd := range []string{"EXISTS", "TOUCH", "MGET"} {
+					got, err := cl.Do(replyTimeout, append([]string{cmd}, keys...)...)
+					if err != nil {
+						res[ci] = &verdict{"no-reply", fmt.Sprintf("%s of %d keys: %v", cmd, c.Keys, err)}
+						return
+					}
+					want := ref.IntV(int64(c.Keys))
+					if cmd == "MGET" {
+						want = ref.ArrV(wantArr...)
+					}
+					if !ref.Equal(got, want) {
+						res[ci] = &verdict{"reply-differs", fmt.Sprintf("round %d: %s of %d existing keys spread over %d nodes answered %s, a single server answers %s", r, cmd, c.Keys, c.Layout.Masters, got, want)}
+						return
+					}
+				}
+			}
+			if got, err := cl.Do(replyTimeout, append([]string{"DEL"}, keys...)...); err != nil || !ref.Equal(got, ref.IntV(int64(c.Keys))) {
+				res[ci] = &verdict{"reply-differs", fmt.Sprintf("DEL of %d existing keys answered %s (%v)", c.Keys, got, err)}
+			}
+		}(ci)
+	}
+	wg.Wait()
+	for _, r := range res {
+		if r != nil {
+			return r
+		}
+	}
+	return nil
+}
+
+func TestWideSplit(t *testing.T) {
+	rapid.Check(t, func(t *rapid.T) {
+		c := wideCase{Layout: sim.Layout{Masters: rapid.IntRange(2, 6).Draw(t, "masters"), Kind: rapid.SampledFrom([]string{"even", "striped", "random"}).Draw(t, "kind"), Seed: rapid.Uint64().Draw(t, "lseed")},
+			Keys: rapid.SampledFrom([]int{2, 8, 32, 128, 256}).Draw(t, "keys"), Conns: rapid.IntRange(1, 4).Draw(t, "conns"), Rounds: rapid.IntRange(5, 60).Draw(t, "rounds")}
+		vh.CurrentCase(prop, "wide", c)
+		v := checkWide(c)
+		vh.ClearCurrentCase()
+		if v != nil {
+			vh.Fail(t, vh.Failure{Property: prop, Part: "wide", Signature: v.sig, Message: v.msg, Case: c})
+		}
+		vh.Rec().Case("wide", true, vh.JSON(c))
+		vh.Rec().ClassN("wide", "wide_split_commands", int64(c.Conns*c.Rounds*3))
+		vh.Rec().Sample("wide", true, func() interface{} { return c })
+	})
+}
+
+func init() {
+	vh.RegisterReplay("wide", func(t *testing.T, raw json.RawMessage) {
+		var c wideCase
+		json.Unmarshal(raw, &c)
+		for i := 0; i < 5; i++ {
+			if v := checkWide(c); v != nil {
+				vh.Fail(t, vh.Failure{Property: prop, Part: "wide", Signature: v.sig, Message: v.msg, Case: c})
+			}
+		}
+	})
+}
